@@ -9,6 +9,8 @@
   * `c11_wake`: PINGREQ from a sleeping client produces exactly the buffered packets in order,
     followed by PINGRESP, leaves the buffer empty and the client asleep again (so the statement
     applies to every sleep cycle);
+  * `c11_repeated_sleep_request`: a repeated DISCONNECT(duration) of a sleeping client keeps the
+    queue and is answered at once;
   * `c11_stays_asleep`: no broker packet and no client packet other than CONNECT, PINGREQ handling
     or DISCONNECT changes the state of a sleeping client (`c11_asleep_mq`).
   The monitor `Spec.c11` checks the whole-session statement on implementation traces.
@@ -105,6 +107,14 @@ theorem c11_asleep_mq (g : Gw) (p : MqPkt) (h : g.st = .asleep) (hp : ∀ rc, p 
       · exact h
     · exact h
   · simp [h]
+
+/-- **C11.** A sleeping client that repeats its DISCONNECT(duration) — our reply got lost — is
+    answered at once and keeps everything that has been queued for it. -/
+theorem c11_repeated_sleep_request (g : Gw) (d : UInt16) (h : g.st = .asleep) :
+    (g.handleSleep d).buffer = g.buffer ∧ (g.handleSleep d).st = .asleep ∧
+    (g.handleSleep d).outs = (g.now, Out.sn (encode (.disconnect 0))) :: g.outs := by
+  unfold handleSleep clearBufferUnlessAsleep maybeSleepPinger
+  split <;> simp [h, snSendNow, emit, setSt, startSleepPinger]
 
 /-- non-vacuity: two queued packets come out oldest first, then PINGRESP -/
 example : (((Gw.init ⟨false, none, none, 10, 2, []⟩ 1 10).setSt .asleep |>.snSend (.pubrec 1) |>.snSend (.pubrec 2)
